@@ -44,6 +44,9 @@ def run(ctx):
             continue
         fields(cfg, crate, rep)
         tables(cfg, crate, rep)
+        # "with the certificate's subject key identifier captured as a fixed key identifier": the SKI and nothing else
+        import c03
+        common.borrow_rules(rep, lambda: c03.check_import(cfg, crate, rep), "C03.", "C17.import")
 
 
 def fields(cfg, crate, rep):
